@@ -439,18 +439,50 @@ func Select(a, i *Term) *Term {
 	// select over store with syntactically equal / literal-distinct index
 	for a.Op == "store" {
 		j := a.Args[1]
-		if j == i || (len(j.Args) == 0 && len(i.Args) == 0 && j.Op == i.Op) {
+		if j == i || (len(j.Args) == 0 && len(i.Args) == 0 && j.Op == i.Op) || sameRef(i, j) {
 			return a.Args[2]
 		}
-		x, ok1 := i.IsIntLit()
-		y, ok2 := j.IsIntLit()
-		if ok1 && ok2 && x != y {
+		if distinctRefs(i, j) {
 			a = a.Args[0]
 			continue
 		}
 		break
 	}
 	return App("select", v, a, i)
+}
+
+// wmForm recognises watermark-relative references (+ wm_k (- n)).
+func wmForm(t *Term) (base string, off int64, ok bool) {
+	if t.Op == "+" && len(t.Args) == 2 && len(t.Args[0].Args) == 0 && strings.HasPrefix(t.Args[0].Op, "wm_") {
+		if n, isLit := t.Args[1].IsIntLit(); isLit {
+			return t.Args[0].Op, n, true
+		}
+	}
+	return "", 0, false
+}
+
+func sameRef(i, j *Term) bool {
+	b1, o1, w1 := wmForm(i)
+	b2, o2, w2 := wmForm(j)
+	return w1 && w2 && b1 == b2 && o1 == o2
+}
+
+// distinctRefs: syntactically certain that two index terms differ.
+func distinctRefs(i, j *Term) bool {
+	x, ok1 := i.IsIntLit()
+	y, ok2 := j.IsIntLit()
+	if ok1 && ok2 {
+		return x != y
+	}
+	b1, o1, w1 := wmForm(i)
+	b2, o2, w2 := wmForm(j)
+	switch {
+	case w1 && w2:
+		return b1 == b2 && o1 != o2
+	case w1 && ok2, w2 && ok1:
+		return true // a literal is never below a loop watermark
+	}
+	return false
 }
 
 func Store(a, i, v *Term) *Term {
